@@ -56,8 +56,14 @@ def one(M, rec, rng, g, desc, pars, st):
         keys = rng.sample(cand, rng.randint(1, min(5, len(cand))))
     # next-state clamps would break the w+/rho+ identities: only initial options
     opts = {o: True for o in ("positive_init_speed", "positive_init_density", "positive_init_queue") if rng.random() < 0.2}
+    T2 = None
+    if rng.random() < 0.25 and not any(k_ == ("#", "T") for k_ in keys):
+        T2 = rng.choice([t for t in (5.0, 7.5, 10.0, 15.0, 20.0) if abs(t / 3600.0 - pars["T"]) > 1e-9]) / 3600.0
     try:
-        case = CC.CompileCase(M, rng, desc, pars, st, keys, opts, own_symbols=(rng.random() < 0.5), reuse=custom)
+        case = CC.CompileCase(M, rng, desc, pars, st, keys, opts, own_symbols=(rng.random() < 0.5), reuse=custom, restep_T=T2)
+        if T2 is not None:
+            pars = dict(pars, T=T2)  # the identities below are those of the LAST step
+            rec.count("cases_stepped_again_with_another_sampling_time")
     except Exception as e:
         rec.count("symbolic_step_failed")
         rec.seen("failed", repr(e)[:100])
